@@ -58,9 +58,12 @@ type Field struct {
 	Ptr bool   `json:"ptr,omitempty"` // message by pointer (*M, []*M, map[K]*M)
 	Msg int    `json:"msg,omitempty"` // index in Schema.Msgs for K==KMsg or Val==KMsg
 	// Impl: the Go type of the message slot is not a plain struct but a
-	// struct-kind type that encodes itself: "pm" = PMsg (implements
-	// proto.Message), "cm" = CMsg (gogo-style custom interface). Msgs[Msg] must
-	// then be ImplMessage(); the reference sees an ordinary nested message.
+	// struct-kind type with encoding methods: "pm" = PMsg (implements
+	// proto.Message), "cm" = CMsg (gogo-style custom interface), "pmpm" = PMsgPM
+	// (proto.Message plus a ProtoMessage method: still self-encoding), "cmpm" =
+	// CMsgPM (custom interface plus ProtoMessage: the library then ignores the
+	// methods and treats it as the plain struct {X uint64; S string}). Msgs[Msg]
+	// must be ImplMessage(); the reference sees an ordinary nested message.
 	Impl string `json:"impl,omitempty"`
 	Key  Kind   `json:"key,omitempty"` // KMap: key kind
 	Val  Kind   `json:"val,omitempty"` // KMap: value kind (scalar, bytes or msg)
@@ -71,6 +74,23 @@ type Field struct {
 type Message struct {
 	Tagged bool    `json:"tagged,omitempty"`
 	Fields []Field `json:"fields"`
+	// Pad, when present, has len(Fields)+1 entries: Pad[i] unexported Go fields
+	// are declared before (exported) field i, Pad[len(Fields)] after the last
+	// one. The library skips unexported fields: an untagged message numbers its
+	// exported fields by a running count (1, 2, ...), whatever lies between.
+	Pad []int `json:"pad,omitempty"`
+}
+
+// GoIndex is the index of field i in the Go struct (unexported padding counted).
+func (m *Message) GoIndex(i int) int {
+	if len(m.Pad) == 0 {
+		return i
+	}
+	n := i
+	for j := 0; j <= i; j++ {
+		n += m.Pad[j]
+	}
+	return n
 }
 
 // Schema is a DAG of messages; Msgs[0] is the root; a message only refers to
@@ -110,6 +130,16 @@ func (s *Schema) Validate() error {
 		return fmt.Errorf("schema without messages")
 	}
 	for mi, m := range s.Msgs {
+		if len(m.Pad) != 0 {
+			if len(m.Pad) != len(m.Fields)+1 {
+				return fmt.Errorf("msg %d: pad has %d entries, want %d", mi, len(m.Pad), len(m.Fields)+1)
+			}
+			for _, p := range m.Pad {
+				if p < 0 || p > 4 {
+					return fmt.Errorf("msg %d: bad pad %d", mi, p)
+				}
+			}
+		}
 		seen := map[int]bool{}
 		for i, f := range m.Fields {
 			if f.Num < 1 || f.Num > 1<<29-1 || (f.Num >= 19000 && f.Num <= 19999) {
@@ -144,7 +174,7 @@ func (s *Schema) Validate() error {
 				}
 				switch f.Impl {
 				case "":
-				case "pm", "cm":
+				case "pm", "cm", "pmpm", "cmpm":
 					if !reflect.DeepEqual(s.Msgs[f.Msg], ImplMessage()) {
 						return fmt.Errorf("msg %d field %d: impl %q needs Msgs[%d] to be the ImplMessage shape", mi, i, f.Impl, f.Msg)
 					}
@@ -199,6 +229,8 @@ func (f *Field) EntryMessage() *Message {
 }
 
 // ------------------------------------------------------------------ Go side
+
+var unexportedTypes = []reflect.Type{reflect.TypeOf(int32(0)), reflect.TypeOf(""), reflect.TypeOf(false), reflect.TypeOf(int64(0)), reflect.TypeOf([]byte(nil))}
 
 var goKinds = map[Kind]reflect.Type{
 	KBool:    reflect.TypeOf(false),
@@ -265,13 +297,33 @@ func Build(s *Schema) (*Built, error) {
 	b := &Built{S: s, Go: make([]reflect.Type, len(s.Msgs))}
 	for mi := len(s.Msgs) - 1; mi >= 0; mi-- {
 		m := &s.Msgs[mi]
-		sf := make([]reflect.StructField, len(m.Fields))
+		sf := make([]reflect.StructField, 0, len(m.Fields))
+		nu := 0
+		pad := func(k int) {
+			for ; k > 0; k-- {
+				// unexported fields of varying size and alignment; a protobuf
+				// tag on one of them must be ignored as well
+				u := reflect.StructField{Name: "u" + strconv.Itoa(nu), PkgPath: "verif/harness/pschema", Type: unexportedTypes[nu%len(unexportedTypes)]}
+				if nu%3 == 2 {
+					u.Tag = `protobuf:"varint,1,opt,name=hidden,proto3"`
+				}
+				sf = append(sf, u)
+				nu++
+			}
+		}
 		for i := range m.Fields {
 			f := &m.Fields[i]
-			sf[i] = reflect.StructField{Name: GoName(i), Type: b.goFieldType(f)}
-			if m.Tagged {
-				sf[i].Tag = f.Tag(i)
+			if len(m.Pad) != 0 {
+				pad(m.Pad[i])
 			}
+			x := reflect.StructField{Name: GoName(i), Type: b.goFieldType(f)}
+			if m.Tagged {
+				x.Tag = f.Tag(i)
+			}
+			sf = append(sf, x)
+		}
+		if len(m.Pad) != 0 {
+			pad(m.Pad[len(m.Fields)])
 		}
 		b.Go[mi] = reflect.StructOf(sf)
 	}
@@ -296,9 +348,32 @@ func Build(s *Schema) (*Built, error) {
 }
 
 var (
-	pmsgType = reflect.TypeOf(PMsg{})
-	cmsgType = reflect.TypeOf(CMsg{})
+	pmsgType   = reflect.TypeOf(PMsg{})
+	cmsgType   = reflect.TypeOf(CMsg{})
+	pmsgPMType = reflect.TypeOf(PMsgPM{})
+	cmsgPMType = reflect.TypeOf(CMsgPM{})
 )
+
+// implOpaque reports whether proto.TypeOf's view t of a slot of self-encoding
+// kind impl is what the library documents: a proto.Message implementer (with
+// or without ProtoMessage) is a field-less message named "bytes", a custom
+// type is bytes, and a custom type that also has ProtoMessage is the ordinary
+// message {uint64 X = 1; string S = 2}.
+func implOpaque(impl string, t segproto.Type) bool {
+	switch impl {
+	case "pm", "pmpm":
+		return t.Kind() == segproto.Struct && t.NumField() == 0
+	case "cm":
+		return t.Kind() == segproto.Bytes
+	case "cmpm":
+		if t.Kind() != segproto.Struct || t.NumField() != 2 {
+			return false
+		}
+		x, s := t.Field(0), t.Field(1)
+		return x.Number == 1 && x.Type.Kind() == segproto.Uint64 && !x.Repeated && s.Number == 2 && s.Type.Kind() == segproto.String && !s.Repeated
+	}
+	return false
+}
 
 func (b *Built) msgType(mi int, ptr bool, impl string) reflect.Type {
 	t := b.Go[mi]
@@ -307,6 +382,10 @@ func (b *Built) msgType(mi int, ptr bool, impl string) reflect.Type {
 		t = pmsgType
 	case "cm":
 		t = cmsgType
+	case "pmpm":
+		t = pmsgPMType
+	case "cmpm":
+		t = cmsgPMType
 	}
 	if ptr {
 		return reflect.PointerTo(t)
@@ -515,8 +594,7 @@ func (b *Built) CheckTypeOf() (err error) {
 				// self-encoding types are opaque to TypeOf: a proto.Message
 				// implementer is a field-less message named "bytes", a custom
 				// type is bytes (same wire type as the nested message it writes)
-				ok := (f.Impl == "pm" && tf.Type.Kind() == segproto.Struct && tf.Type.NumField() == 0) || (f.Impl == "cm" && tf.Type.Kind() == segproto.Bytes)
-				if !ok {
+				if !implOpaque(f.Impl, tf.Type) {
 					diffs = append(diffs, fmt.Sprintf("%s: kind %v (%s) for self-encoding %s", p, tf.Type.Kind(), tf.Type.Name(), f.Impl))
 				}
 				continue
@@ -535,9 +613,8 @@ func (b *Built) CheckTypeOf() (err error) {
 					diffs = append(diffs, fmt.Sprintf("%s: map key kind %v, want %v", p, tf.Type.Key().Kind(), kk))
 				}
 				if f.Val == KMsg && f.Impl != "" {
-					ek := tf.Type.Elem().Kind()
-					if !((f.Impl == "pm" && ek == segproto.Struct && tf.Type.Elem().NumField() == 0) || (f.Impl == "cm" && ek == segproto.Bytes)) {
-						diffs = append(diffs, fmt.Sprintf("%s: map value kind %v for self-encoding %s", p, ek, f.Impl))
+					if !implOpaque(f.Impl, tf.Type.Elem()) {
+						diffs = append(diffs, fmt.Sprintf("%s: map value kind %v for self-encoding %s", p, tf.Type.Elem().Kind(), f.Impl))
 					}
 				} else if tf.Type.Elem().Kind() != vk {
 					diffs = append(diffs, fmt.Sprintf("%s: map value kind %v, want %v", p, tf.Type.Elem().Kind(), vk))
